@@ -15,13 +15,20 @@
 (* cloud the same law is checked on ladders recorded from the real classes *)
 (* (ResolutionLimitTrace, closed forms in ResolutionLimitCore).            *)
 (*                                                                         *)
+(* Fold = TRUE explores the other half of the documented integrand         *)
+(* I(|q+v|): W > q, where the part of the window below zero is reflected   *)
+(* onto [0, W-q] and the grid points there count FoldWeight = 2 times      *)
+(* (resolution.py: in_x + abs_x); exact mean = ((q+W)^(k+1) +              *)
+(* (W-q)^(k+1)) / (2W(k+1)).  FoldWeight = 1 (the reflection dropped)      *)
+(* must fail.                                                              *)
+(*                                                                         *)
 (* Variants that must fail: KNum/KDen = 1/10 (the stated bound is not      *)
 (* vacuous: the error really is of order h/W), Normalise = FALSE (the      *)
 (* as-written rule sum(h)/(2W) is off by the window misfit).               *)
 (***************************************************************************)
 EXTENDS Integers, Sequences, FiniteSets, TLC, Json
 
-CONSTANTS QSet, WSet, H0, KMax, KNum, KDen, Normalise, Export
+CONSTANTS QSet, WSet, H0, KMax, KNum, KDen, Normalise, Export, Fold, FoldWeight
 
 VARIABLES q, W, h, off, k
 vars == <<q, W, h, off, k>>
@@ -30,15 +37,19 @@ Abs(x) == IF x < 0 THEN -x ELSE x
 RECURSIVE Pow(_, _)
 Pow(x, n) == IF n = 0 THEN 1 ELSE x * Pow(x, n - 1)
 
-\* grid points off + j*h (j >= 0) whose centre lies in the window
-Members == {x \in (q - W)..(q + W) : x >= off /\ (x - off) % h = 0}
+\* grid points off + j*h (j >= 0) whose centre lies in the window; the grid is positive only
+Lo == IF W > q THEN 1 ELSE q - W
+Members == {x \in Lo..(q + W) : x >= off /\ (x - off) % h = 0}
+\* points in the reflected part of the window count FoldWeight times
+Wt(x) == IF W > q /\ x < W - q THEN FoldWeight ELSE 1
 RECURSIVE SumPow(_, _)
-SumPow(S, n) == IF S = {} THEN 0 ELSE LET x == CHOOSE y \in S : TRUE IN Pow(x, n) + SumPow(S \ {x}, n)
+SumPow(S, n) == IF S = {} THEN 0 ELSE LET x == CHOOSE y \in S : TRUE IN Wt(x) * Pow(x, n) + SumPow(S \ {x}, n)
 
-Cnt == Cardinality(Members)
+Cnt == SumPow(Members, 0)
 S == SumPow(Members, k)
-Nk == Pow(q + W, k + 1) - Pow(q - W, k + 1)        \* exact mean * 2W(k+1)
-Vk == Pow(q + W, k) - Pow(q - W, k)                \* scale(f) for f = t^k
+\* exact mean * 2W(k+1), and scale(f) for f = t^k over the window of |q+v|
+Nk == IF W > q THEN Pow(q + W, k + 1) + Pow(W - q, k + 1) ELSE Pow(q + W, k + 1) - Pow(q - W, k + 1)
+Vk == IF W > q THEN Pow(q + W, k) ELSE Pow(q + W, k) - Pow(q - W, k)
 \* smeared = S/Cnt (normalised) or S*h/(2W) (as written);  exact = Nk/(2W(k+1))
 \* |smeared - exact| <= (KNum/KDen)*(h/W)*Vk, cross-multiplied
 ErrBound ==
@@ -47,7 +58,7 @@ ErrBound ==
     THEN Abs(S * 2 * W * (k + 1) - Cnt * Nk) * KDen <= KNum * h * Vk * Cnt * 2 * (k + 1)
     ELSE Abs(S * h * (k + 1) - Nk) * KDen <= KNum * h * Vk * 2 * (k + 1)
 
-Init == /\ q \in QSet /\ W \in WSet /\ W < q
+Init == /\ q \in QSet /\ W \in WSet /\ (IF Fold THEN W > q ELSE W < q)
         /\ h = H0 /\ off \in 0..(H0 - 1) /\ k \in 1..KMax
 Refine == /\ h % 2 = 0
           /\ h' = h \div 2
@@ -76,7 +87,7 @@ Ladders ==
     \cup {[cls |-> "slitL", rel |-> r, rel2 |-> "0.0", coef |-> p, rungs |-> Rungs("slitL")] :
         r \in {"0.1", "0.3", "0.6", "1.5", "3.0"}, p \in Polys}
     \cup {[cls |-> "slitW", rel |-> r, rel2 |-> "0.0", coef |-> p, rungs |-> Rungs("slitW")] :
-        r \in {"0.1", "0.3", "0.6"}, p \in Polys}
+        r \in {"0.1", "0.3", "0.6", "1.2", "2.0"}, p \in Polys}
     \cup {[cls |-> "slitLW", rel |-> r, rel2 |-> r2, coef |-> p, rungs |-> Rungs("slitLW")] :
         r \in {"0.3", "0.6", "1.5"}, r2 \in {"0.1", "0.3", "0.6"}, p \in Polys}
 Forms == {<<"1.0", "0.0", "1.0">>, <<"1.0", "0.0", "0.0">>, <<"0.0", "0.0", "1.0">>, <<"2.0", "1.0", "3.0">>,
